@@ -288,6 +288,115 @@ func (e *Engine) registerDomain() {
 		}
 		return c.ret(TupleV{IfaceV{}, c.e.newError(c.st, "jwk parse")})
 	})
+	// ------------------------------------------------------------ jwk.Cache (contract stub)
+	// The auto-refreshing key-set cache of jwx (goroutines, timers, HTTP) is not executed. Its
+	// documented contract is modelled instead: a URL registered WithRefreshInterval(d) is re-fetched
+	// every d whatever the provider's caching headers say (WithMinRefreshInterval only bounds a
+	// header-driven period from below), polled with the cache's refresh window, through the HTTP
+	// client given at registration; Get returns the set last fetched from that URL. What the code
+	// under test registers is recorded and handed to the harness (vn.JWKCacheOption).
+	jwkOption := func(fn, iface, name string, dur bool) {
+		r(jwxJWK+"."+fn, func(c *CallCtx) []Outcome {
+			o := &jwkOpt{name: name}
+			if dur {
+				o.dur = c.args[0].(*Term)
+			} else {
+				o.val = c.args[0]
+			}
+			return c.ret(IfaceV{t: c.e.namedType(jwxJWK, iface), v: OpaqueV{kind: "jwkopt", data: o}})
+		})
+	}
+	jwkOption("WithErrSink", "CacheOption", "ErrSink", false)
+	jwkOption("WithRefreshWindow", "CacheOption", "RefreshWindow", true)
+	jwkOption("WithHTTPClient", "FetchOption", "HTTPClient", false)
+	jwkOption("WithRefreshInterval", "RegisterOption", "RefreshInterval", true)
+	jwkOption("WithMinRefreshInterval", "RegisterOption", "MinRefreshInterval", true)
+	jwkOpts := func(c *CallCtx, v Value) []*jwkOpt {
+		var out []*jwkOpt
+		for _, o := range c.e.sliceValues(c.st, v) {
+			op, ok := o.(IfaceV).v.(OpaqueV)
+			if !ok || op.kind != "jwkopt" {
+				unm("jwk cache option that is not modelled")
+			}
+			out = append(out, op.data.(*jwkOpt))
+		}
+		return out
+	}
+	jwkCacheOf := func(c *CallCtx) (Ptr, *jwkCacheData, bool) {
+		p, _ := c.args[0].(Ptr)
+		if p.IsNil() {
+			return p, nil, false
+		}
+		return p, c.st.heap.objs[p.obj].(OpaqueV).data.(*jwkCacheData), true
+	}
+	r(jwxJWK+".NewCache", func(c *CallCtx) []Outcome {
+		d := &jwkCacheData{opts: jwkOpts(c, c.args[1])}
+		return c.ret(Ptr{obj: c.st.newObj(OpaqueV{kind: "jwkcache", data: d})})
+	})
+	r("(*"+jwxJWK+".Cache).IsRegistered", func(c *CallCtx) []Outcome {
+		_, d, ok := jwkCacheOf(c)
+		if !ok {
+			return c.panicOut("nil-deref-jwk-cache")
+		}
+		u := mustConstStr(c.args[1])
+		for _, rg := range d.regs {
+			if rg.uri == u {
+				return c.ret(tTrue)
+			}
+		}
+		return c.ret(tFalse)
+	})
+	r("(*"+jwxJWK+".Cache).Register", func(c *CallCtx) []Outcome {
+		p, d, ok := jwkCacheOf(c)
+		if !ok {
+			return c.panicOut("nil-deref-jwk-cache")
+		}
+		nd := &jwkCacheData{opts: d.opts, regs: append(append([]jwkReg(nil), d.regs...), jwkReg{uri: mustConstStr(c.args[1]), opts: jwkOpts(c, c.args[2])})}
+		c.st.heap.objs[p.obj] = OpaqueV{kind: "jwkcache", data: nd}
+		return c.ret(IfaceV{})
+	})
+	r("(*"+jwxJWK+".Cache).Get", func(c *CallCtx) []Outcome {
+		_, d, ok := jwkCacheOf(c)
+		if !ok {
+			return c.panicOut("nil-deref-jwk-cache")
+		}
+		u := mustConstStr(c.args[2])
+		for _, rg := range d.regs {
+			if rg.uri == u {
+				c.e.noteAssume("jwk.Cache.Get: the registered JWKS endpoint answers (key-source failures are injected at the handler's key-source interface instead)")
+				return c.ret(TupleV{IfaceV{t: c.e.namedType(jwxJWK, "Set"), v: OpaqueV{kind: "keyset", data: "fetched:" + u}}, IfaceV{}})
+			}
+		}
+		return c.ret(TupleV{IfaceV{}, c.e.newError(c.st, "jwk cache: url not registered")})
+	})
+	r(vnPkg+".FetchedKeySet", func(c *CallCtx) []Outcome {
+		return c.ret(IfaceV{t: c.e.namedType(jwxJWK, "Set"), v: OpaqueV{kind: "keyset", data: "fetched:" + mustConstStr(c.args[0])}})
+	})
+	r(vnPkg+".JWKCacheOption", func(c *CallCtx) []Outcome {
+		_, d, ok := jwkCacheOf(c)
+		if !ok {
+			return c.ret(TupleV{I(0), tFalse})
+		}
+		u, name := mustConstStr(c.args[1]), mustConstStr(c.args[2])
+		opts := d.opts
+		if u != "" {
+			opts = nil
+			for _, rg := range d.regs {
+				if rg.uri == u {
+					opts = rg.opts
+				}
+			}
+		}
+		for _, o := range opts {
+			if o.name == name {
+				if o.dur != nil {
+					return c.ret(TupleV{o.dur, tTrue})
+				}
+				return c.ret(TupleV{I(0), tTrue})
+			}
+		}
+		return c.ret(TupleV{I(0), tFalse})
+	})
 	r(vnPkg+".SameKeySet", func(c *CallCtx) []Outcome {
 		a, b := c.args[0].(IfaceV), c.args[1].(IfaceV)
 		if a.t == nil || b.t == nil {
@@ -387,7 +496,20 @@ func (e *Engine) registerDomain() {
 		unm("URL.Hostname on unmodelled URL")
 		return nil
 	})
-	r("(*net/url.URL).String", func(c *CallCtx) []Outcome { return c.ret(c.e.opaqueString(c.st, "urlstr")) })
+	r("(*net/url.URL).String", func(c *CallCtx) []Outcome {
+		// the URL of a request built by http.NewRequest / Client.Get from a constant string prints as
+		// the real parser prints it; anything else is an opaque string
+		if p, ok := c.args[0].(Ptr); ok && !p.IsNil() {
+			if v, ok := c.st.ghost["urlraw:"+ptrKey(p)]; ok {
+				if cs, isC := v.(*Str).Const(); isC {
+					if u, err := url.Parse(cs); err == nil {
+						return c.ret(constStr(u.String()))
+					}
+				}
+			}
+		}
+		return c.ret(c.e.opaqueString(c.st, "urlstr"))
+	})
 
 	r("(net/http.Header).Get", func(c *CallCtx) []Outcome {
 		m := c.args[0].(MapV)
@@ -444,6 +566,14 @@ func (e *Engine) registerDomain() {
 			outs = append(outs, Outcome{st: b, val: TupleV{req, IfaceV{}}})
 		}
 		return outs
+	})
+	r("(*net/http.Transport).Clone", func(c *CallCtx) []Outcome {
+		p := c.args[0].(Ptr)
+		if p.IsNil() {
+			return c.ret(Ptr{})
+		}
+		src := c.st.heap.objs[p.obj].(*StructV)
+		return c.ret(Ptr{obj: c.st.newObj(&StructV{f: append([]Value(nil), src.f...)})})
 	})
 	r("(*net/http.Client).Do", func(c *CallCtx) []Outcome {
 		cl := c.args[0].(Ptr)
@@ -894,6 +1024,22 @@ func (e *Engine) lookupToken(st *State, s *Str) []tokMatch {
 type mrandState struct {
 	seed *Term
 	outs []*Term
+}
+
+type jwkOpt struct {
+	name string
+	dur  *Term
+	val  Value
+}
+
+type jwkReg struct {
+	uri  string
+	opts []*jwkOpt
+}
+
+type jwkCacheData struct {
+	opts []*jwkOpt
+	regs []jwkReg
 }
 
 type jwsKeySetOpt struct {
